@@ -229,13 +229,22 @@ func runC06(c *Ctx) {
 					if fa, ok := st.Addr.(*ssa.FieldAddr); ok && flow.IsFieldLoad(fa, endorsePkg, "Context", "Image") {
 						stores++
 						c.S.Bad("R3", load.FuncName(f)+":store Context.Image", c.pos(st.Pos()), "the image is replaced during measurement/signing")
+					} else if ok && namedIs(fa.X.Type(), endorsePkg, "Context") {
+						// the request object is input only: a field written while measuring (a memoised digest, a remembered
+						// measurement) outlives the image it was computed from when the caller supplies the next image
+						// in the same Context
+						if al, isAlloc := fa.X.(*ssa.Alloc); isAlloc && al.Comment == "complit" {
+							continue
+						}
+						stores++
+						c.S.Bad("R3", load.FuncName(f)+":store Context."+flow.FieldName(fa), c.pos(st.Pos()), "the measurement/signing closure writes field "+flow.FieldName(fa)+" of the request Context: what is derived from the image is kept in an object whose Image the caller may replace, so a later document can describe two images")
 					}
 				}
 			}
 		}
 	}
 	if stores == 0 {
-		c.S.OK("R3", "S:Context.Image immutable", "", "no store to Context.Image in S", true)
+		c.S.OK("R3", "S:Context.Image immutable", "", "no store to any field of the request Context in S", true)
 	}
 
 	// ---- R4 ----
